@@ -90,7 +90,9 @@ inline std::vector<FaultChoice> fault_choices(int fn, const vs_rec &rec)
     case VS_WRITE:
       if (rec.side == VS_CHILD) return V{};  // the error report itself: only reachable after another failure
       return V{ { VS_FK_ERRNO, EAGAIN, 0, "EAGAIN" }, { VS_FK_ERRNO, EINTR, 0, "EINTR" }, { VS_FK_SHORT, 0, 0, "short-count" }, { VS_FK_ERRNO, EPIPE, 0, "EPIPE" } };
-    case VS_WAITPID: return V{ { VS_FK_ERRNO, EINTR, 0, "EINTR" }, { VS_FK_ERRNO, ECHILD, 0, "ECHILD" } };
+    // ECHILD for a child nobody else has reaped would contradict the documented
+    // precondition (the caller does not wait for reproc's children itself)
+    case VS_WAITPID: return V{ { VS_FK_ERRNO, EINTR, 0, "EINTR" } };
     case VS_SIGACTION: return V{ { VS_FK_ERRNO, EFAULT, 0, "EFAULT" } };
     case VS_GETRLIMIT:
       return V{ { VS_FK_ERRNO, EINVAL, 0, "EINVAL" }, { VS_FK_VALUE, 0, (long long) RLIM_INFINITY, "limit=infinity" }, { VS_FK_VALUE, 0, 1048578, "limit=1048578" } };
@@ -276,13 +278,66 @@ struct Obs {
   std::string setup_error;
 };
 
+// Operations of a generated history on a started handle (C05, C06).
+enum OpKind { OP_WAIT, OP_TERMINATE, OP_KILL, OP_STOP, OP_READ, OP_WRITE, OP_CLOSE, OP_POLL, OP_PID, OP_CHILD_EXIT, OP_CHILD_WRITE, OP_KINDS };
+
+struct Op {
+  int kind = OP_WAIT;
+  int a = 0;       // timeout / stream / interests / exit code
+  int b = 0;       // size / second parameter
+  int stop[6] = { 0, 0, 0, 0, 0, 0 };  // (action, timeout) x 3
+};
+
+inline const char *op_name(int k)
+{
+  static const char *n[] = { "wait", "terminate", "kill", "stop", "read", "write", "close", "poll", "pid", "child-exit", "child-write" };
+  return k >= 0 && k < OP_KINDS ? n[k] : "?";
+}
+
 struct RunConfig {
   int scenario = 0;
   std::vector<FaultSpec> faults;
+  // faults installed when start has returned; `index` counts fault points from
+  // that moment on (parent side)
+  std::vector<FaultSpec> late_faults;
   ParentSignals parent_signals;
   bool do_history = true;   // terminate/kill/wait history after a successful start
+  std::vector<Op> ops;      // generated history; replaces the fixed one when non-empty
   int nofile_limit = 64;
 };
+
+inline Op gen_op(fw::Tape &t)
+{
+  Op o;
+  o.kind = (int) t.weighted({ 5, 3, 3, 3, 3, 2, 2, 3, 1, 3, 2 });
+  static const int timeouts[] = { 0, 0, 15, 3000 };
+  switch (o.kind) {
+    case OP_WAIT: o.a = timeouts[t.pick(4)]; break;
+    case OP_STOP:
+      for (int i = 0; i < 3; i++) {
+        o.stop[2 * i] = (int) t.pick(4);  // noop, wait, terminate, kill
+        o.stop[2 * i + 1] = timeouts[t.pick(3)];
+      }
+      break;
+    case OP_READ:
+      o.a = 1 + (int) t.pick(2);
+      o.b = (int) t.range(1, 5000);
+      break;
+    case OP_WRITE: o.b = (int) t.range(0, 3000); break;
+    case OP_CLOSE: o.a = (int) t.pick(3); break;
+    case OP_POLL:
+      o.a = (int) t.pick(16);
+      o.b = t.coin() ? 0 : 10;
+      break;
+    case OP_CHILD_EXIT: o.a = (int) t.pick(256); break;
+    case OP_CHILD_WRITE:
+      o.a = 1 + (int) t.pick(2);
+      o.b = (int) t.range(1, 3000);
+      break;
+    default: break;
+  }
+  return o;
+}
 
 namespace detail {
 
@@ -571,7 +626,103 @@ inline Obs run(const RunConfig &cfg, const std::string &root)
     // ---- history on the started handle (C06): signal, wait, then the no-op
     // calls that must not reach the kernel
     auto hist = [&](const std::string &op, int res) { o.history.push_back(op + "=" + std::to_string(res)); };
-    if (cfg.do_history) {
+    for (auto f : cfg.late_faults) {
+      vs_fault vf;
+      memset(&vf, 0, sizeof(vf));
+      vf.side = VS_PARENT;
+      vf.index = (int) vs_sh->fidx[VS_PARENT] + f.index;
+      vf.fn = -1;  // whatever call is there
+      vf.kind = f.kind;
+      vf.err = f.err;
+      vf.value = f.value;
+      vs_add_fault(vf);
+    }
+    if (!cfg.ops.empty()) {
+      bool child_alive = o.hello && !fork_mode;
+      bool reaped = false;
+      uint64_t pending[3] = { 0, 0, 0 };
+      uint64_t written_in = 0;
+      bool piped[3] = { plan.eff[0] == sc::T_PIPE && plan.input_size < 0, plan.eff[1] == sc::T_PIPE, plan.eff[2] == sc::T_PIPE };
+      static uint8_t buf[8192];
+      for (const Op &op : cfg.ops) {
+        int before_sigs = vs_nsig();
+        switch (op.kind) {
+          case OP_WAIT: {
+            int to = op.a;
+            if (to == 3000 && child_alive) to = 15;  // never sit out a long wait on a child that will not exit
+            int w = reproc_wait(p, to);
+            hist("wait(" + std::to_string(to) + ")", w);
+            if (w >= 0) {
+              if (reaped && w != o.final_status) o.history.push_back("!status-changed");
+              o.final_status = w;
+            }
+            break;
+          }
+          case OP_TERMINATE: hist("terminate", reproc_terminate(p)); break;
+          case OP_KILL: hist("kill", reproc_kill(p)); break;
+          case OP_STOP: {
+            reproc_stop_actions sa = { { (REPROC_STOP) op.stop[0], op.stop[1] }, { (REPROC_STOP) op.stop[2], op.stop[3] }, { (REPROC_STOP) op.stop[4], op.stop[5] } };
+            bool all_noop = op.stop[0] == 0 && op.stop[2] == 0 && op.stop[4] == 0;
+            if (all_noop && child_alive) sa.first = { REPROC_STOP_KILL, 3000 };  // the all-noop default would wait for ever
+            for (reproc_stop_action *a : { &sa.first, &sa.second, &sa.third })
+              if (a->timeout == 3000 && child_alive && a->action == REPROC_STOP_WAIT) a->timeout = 15;
+            int w = reproc_stop(p, sa);
+            hist("stop", w);
+            if (w >= 0 && !vs_is_live(o.pid_after)) o.final_status = w;
+            break;
+          }
+          case OP_READ: {
+            int st = op.a;
+            bool safe = plan.nonblocking || !piped[st] || pending[st] > 0 || !child_alive || !hz::pid_exists(o.pid_after) || hz::is_dead(o.pid_after);
+            if (!safe) break;
+            int rr = reproc_read(p, st == 1 ? REPROC_STREAM_OUT : REPROC_STREAM_ERR, buf, (size_t) op.b);
+            hist(std::string("read(") + sc::stream_name(st) + ")", rr);
+            if (rr > 0) pending[st] -= std::min<uint64_t>(pending[st], (uint64_t) rr);
+            if (rr == REPROC_EPIPE) piped[st] = false;
+            break;
+          }
+          case OP_WRITE: {
+            if (written_in + (uint64_t) op.b > 50000) break;  // stay below the pipe capacity: never block
+            for (int i = 0; i < op.b; i++) buf[i] = pup_pattern(0, written_in + (uint64_t) i);
+            int w = reproc_write(p, buf, (size_t) op.b);
+            hist("write(" + std::to_string(op.b) + ")", w);
+            if (w > 0) written_in += (uint64_t) w;
+            break;
+          }
+          case OP_CLOSE:
+            hist(std::string("close(") + sc::stream_name(op.a) + ")", reproc_close(p, (REPROC_STREAM) op.a));
+            piped[op.a] = false;
+            break;
+          case OP_POLL: {
+            reproc_event_source src = { p, op.a, 0 };
+            int pr = reproc_poll(&src, 1, op.b);
+            hist("poll(" + std::to_string(op.a) + ")", pr);
+            break;
+          }
+          case OP_PID: hist("pid", reproc_pid(p)); break;
+          case OP_CHILD_EXIT:
+            if (child_alive) {
+              pup.send(PUP_EXIT, (uint32_t) op.a);
+              hz::wait_dead(o.pid_after, 5000);
+              child_alive = false;
+              o.history.push_back("child-exit(" + std::to_string(op.a) + ")");
+            }
+            break;
+          case OP_CHILD_WRITE:
+            if (child_alive && piped[op.a] && pending[op.a] + (uint64_t) op.b < 50000) {
+              pup_ack a;
+              if (pup.cmd(PUP_WRITE, (uint32_t) op.a, (uint64_t) op.b, &a)) pending[op.a] = a.v[0] >= pending[op.a] ? pending[op.a] + (uint64_t) op.b : pending[op.a];
+              o.history.push_back(std::string("child-write(") + sc::stream_name(op.a) + "," + std::to_string(op.b) + ")");
+            }
+            break;
+          default: break;
+        }
+        // the shim's ledger knows when the child has been reaped
+        if (reaped && vs_nsig() != before_sigs) o.sig_count_after_reap += vs_nsig() - before_sigs;
+        reaped = o.pid_after > 0 && !vs_is_live(o.pid_after);
+        if (child_alive && (hz::is_dead(o.pid_after) || !hz::pid_exists(o.pid_after))) child_alive = false;
+      }
+    } else if (cfg.do_history) {
       if (o.hello && !fork_mode) pup.send(PUP_EXIT, 7);
       int w = reproc_wait(p, 3000);
       hist("wait(3000)", w);
